@@ -14,7 +14,7 @@
 (*   c  classification labels computed by the spec (wall class, fold, ...)   *)
 (*   v  failed clauses, << <<clause, expected>>, ... >>; empty = conforming  *)
 (***************************************************************************)
-EXTENDS OpsArith, OpsCalendar, TLCExt
+EXTENDS OpsDiff, OpsCalendar, TLCExt
 
 T == JsonDeserialize(IOEnv.PV_TRACE)
 VARIABLES l, nbad
@@ -119,6 +119,64 @@ J_add_cal_date(e) ==
             ELSE IF e.post.k # "date" THEN << <<"kind", e.post.k>> >>
             ELSE V("class", e.post.cls = "Date", "Date") \o V("date", e.post.w = x, x))
 
+\* ---- C05 -----------------------------------------------------------------------------
+\* entry points that return the magnitude
+Magnitude == {"interval_abs", "diff_default", "abs", "neg_abs"}
+PClass(v) == IF IsDate(v) THEN "date" ELSE ClassOf(DT(v.z, v.w, v.f))
+J_iv_len(e) ==
+  LET a == e.pre[1]  b == e.pre[2]  p == e.post
+      el == Elapsed(a, b)
+      want == IF e.a.entry \in Magnitude THEN D3Abs(el) ELSE el
+  IN IF PClass(a) = "skipped" \/ PClass(b) = "skipped" THEN R(<<"ill-formed-endpoint">>, <<>>) ELSE
+     R(<<e.a.entry, e.a.rel, PClass(a), PClass(b), N(D3Sign(el) + 1), B(Exact(el))>>,
+       IF p.k = "exc" THEN << <<"unexpected-exception", p.names>> >>
+       ELSE IF p.k # "iv" THEN << <<"kind", p.k>> >>
+       ELSE V("class", p.cls = "Interval", "Interval")
+            \o (IF Exact(el)
+                THEN V("length", p.r3 = want, want)
+                     \o V("in_seconds", p.ins = <<IF MagSec(want) = <<0, 0>> THEN 0 ELSE D3Sign(want), MagSec(want)>>, MagSec(want))
+                     \o V("in_minutes", p.inm = <<IF MagMin(want) = <<0, 0>> THEN 0 ELSE D3Sign(want), MagMin(want)>>, MagMin(want))
+                     \o V("in_hours", p.inh = <<IF MagHour(want) = 0 THEN 0 ELSE D3Sign(want), MagHour(want)>>, MagHour(want))
+                ELSE V("length-64us", Within64(p.r3, want), want)))
+
+\* ---- C06 -----------------------------------------------------------------------------
+ValidPoint(v, cmp) == /\ cmp.k = "dt" /\ ZRef(cmp.z) = ZRef(v.z) /\ cmp.w = v.w
+                      /\ InstOf(DT(cmp.z, cmp.w, cmp.f)) = InstOf(DT(v.z, v.w, v.f))
+J_iv_comp(e) ==
+  LET a == e.pre[1]  b == e.pre[2]  p == e.post
+      dates == IsDate(a)
+      fwd == IF dates THEN I3Le(DayI3(a), DayI3(b)) ELSE I3Le(PointOf(a), PointOf(b))
+      lo == IF fwd THEN a ELSE b
+      hi == IF fwd THEN b ELSE a
+      samez == dates \/ ZRef(a.z) = ZRef(b.z)
+      \* frame in which the decomposition is stated: the common zone, else UTC
+      low == IF samez THEN Wall7(lo) ELSE InTz(DT(lo.z, lo.w, lo.f), UtcRef).w
+      hiw == IF samez THEN Wall7(hi) ELSE InTz(DT(hi.z, hi.w, hi.f), UtcRef).w
+      \* the property's premise, evaluated by the spec; spans beyond 2^33 s are outside the float-exact
+      \* range in which Interval can report seconds and microseconds at all (soundness rule 3)
+      premise == /\ Exact(Elapsed(a, b))
+                 /\ PClass(lo) # "skipped" /\ PClass(hi) # "skipped"
+                 /\ (dates \/ ~samez \/ IsNaive(a)
+                     \/ (OffOf(DT(lo.z, lo.w, lo.f)) = OffOf(DT(hi.z, hi.w, hi.f)) /\ PClass(hi) = "unique"))
+      sg == IF fwd THEN 1 ELSE -1
+      c == p.c
+      mag == <<sg * c[1], sg * c[2], sg * (7 * c[3] + c[4]), sg * c[5], sg * c[6], sg * c[7], sg * c[8]>>
+      H(h) == <<sg * h[1], sg * h[2], sg * h[3], sg * h[4], sg * h[5], sg * h[6], sg * h[7]>>
+      alg == AlgPD(low, hiw)
+  IN R(<<e.a.rel, B(fwd), "br", alg.br, B(alg.borrow), "premise", B(premise), "lo", PClass(lo), "hi", PClass(hi)>>,
+       IF p.k = "exc" THEN << <<"unexpected-exception", p.names>> >>
+       ELSE V("in_months", p.in_months = 12 * c[1] + c[2], 12 * c[1] + c[2])
+            \o V("backends-agree", p.py = p.rs, p.py)
+            \o (IF ~premise THEN <<>>
+                ELSE V("py-helper", ValidDecomposition(low, hiw, H(p.py)), hiw)
+                     \o V("rs-helper", ValidDecomposition(low, hiw, H(p.rs)), hiw)
+                     \o V("ranges", InRanges(mag) /\ Abs(c[4]) < 7, "canonical ranges, sign of the interval")
+                     \o V("rebuilds", Rebuilds(low, hiw, mag), hiw)
+                     \o (IF samez /\ ~dates /\ fwd
+                         THEN V("start-plus-interval", ValidPoint(b, p.sum), b.w)
+                              \o V("add-components", ValidPoint(b, p.addc), b.w)
+                         ELSE <<>>)))
+
 \* ---- C15 -----------------------------------------------------------------------------
 J_year_prims(e) == LET y == e.a.y IN
    R(<<B(IsLeap(y)), B(IsLongYear(y))>>,
@@ -162,6 +220,8 @@ Judge(e) == CASE e.op = "in_tz" -> J_in_tz(e)
               [] e.op = "add_fixed" -> J_add_fixed(e)
               [] e.op = "add_cal" -> J_add_cal(e)
               [] e.op = "add_cal_date" -> J_add_cal_date(e)
+              [] e.op = "iv_len" -> J_iv_len(e)
+              [] e.op = "iv_comp" -> J_iv_comp(e)
               [] e.op = "year_prims" -> J_year_prims(e)
               [] e.op = "year_weekdays" -> J_year_weekdays(e)
               [] e.op = "year_getters" -> J_year_getters(e)
